@@ -63,8 +63,13 @@ Fixpoint insert_asc (h : str * list broute) (l : btable) : btable :=
   | [] => [h]
   | x :: l' => if str_ltb (fst h) (fst x) then h :: l else x :: insert_asc h l'
   end.
+(* a target is observed as its service, NUL, its options "k=v k=v" (keys ascending): the options a
+   target carries (strip, allow / deny, host, redirect, auth ...) are part of what "the complete new
+   table" means *)
+Definition tgt_obs (t : target) : str :=
+  t_svc t ++ 0 :: join (map (fun kv : str * str => fst kv ++ [61] ++ snd kv) (t_opts t)) [32].
 Definition obs_of (bt : btable) : tobs :=
-  map (fun hr => (fst hr, map (fun br : broute => (r_path (fst br), map t_svc (r_targets (fst br)))) (snd hr)))
+  map (fun hr => (fst hr, map (fun br : broute => (r_path (fst br), map tgt_obs (r_targets (fst br)))) (snd hr)))
       (fold_right insert_asc [] bt).
 
 Definition svc_of_route (r : route) : str :=
